@@ -44,7 +44,7 @@ AFFINE_REAL = 4096.0
 AFFINE_CSTEP = 64.0
 K_DIR = 1e5
 # extrapolated-order clause: |err| <= C_X[method] * T + C_XR * R + floor, (T, R) = truncation and rounding parts of
-# min(U_basic, U_x); asserted for the short geometric user sequences (step kind 'geo') of every method and for the
+# U_x (U_basic if k_est = 1); asserted for the short geometric user sequences (step kind 'geo') of every method and for the
 # default configuration of the real-step methods.  Worst err/T over truncation-dominated entries (8 quick seeds +
 # thorough seed 0, 178 000 cases): central 4.8, complex 0.29, multicomplex (order 2) 8.3, forward 422, backward 31;
 # worst err/R over rounding-dominated entries 2.1e3.
